@@ -1,6 +1,6 @@
 (* Model/C14Check.v — Z / Qc instances and certificate checks for nvecs evaluated by the generated cases. *)
 From Coq Require Import List Arith Bool ZArith QArith Qabs Qcanon.
-From PV Require Import Base.Index Base.Sum Np.Array Model.Sparse Model.Repr Model.Harness Model.C10Tucker Model.C10Check Model.C14Nvecs Model.C14Gram Model.C01Ttm Model.C14Unfold Model.C01Coo Model.C14SpPath Model.C14SpChain.
+From PV Require Import Base.Index Base.Sum Np.Array Model.Sparse Model.Repr Model.Harness Model.C10Tucker Model.C10Check Model.C14Nvecs Model.C14Gram Model.C01Ttm Model.C14Unfold Model.C01Coo Model.C14SpPath Model.C14SpChain Model.C14SpPost.
 Import ListNotations.
 Local Open Scope Qc_scope.
 
@@ -41,19 +41,19 @@ Definition gram_tsp_code (GS : sparse Z) (Us : list (list (list Z))) (n : nat) (
   omat_eqb (gram_tsp_tm 0%Z Z.add Z.mul (Z.eqb 0) (HSparse (to_sptensor 0%Z (Z.eqb 0) Hd)) GS (nth n Us []) n) Y &&
   omat_eqb (gram_tsp_tm 0%Z Z.add Z.mul (Z.eqb 0) (HDense Hd) GS (nth n Us []) n) Y.
 
-(* wave 3b — sptensor.nvecs' code path (C14_gram_sparse_code): reshape over the generated tt_sub2ind / tt_ind2sub, squeeze, spmatrix,
-   transpose; the Gram matrix formed on it, and the COO matrix spmatrix() returned inside nvecs as RECORDED (shape, rows, columns, data
+(* wave 3b / 4 — sptensor.nvecs' code path (C14_gram_sparse_code): reshape over the generated tt_sub2ind / tt_ind2sub, second reshape
+   (/repo f3d6beb), spmatrix, transpose; the Gram matrix formed on it, and the COO matrix spmatrix() returned inside nvecs as RECORDED (shape, rows, columns, data
    in stored order) against the model's tnt (its transpose) *)
 Definition gram_sp_path_code (Sp : sparse Z) (n : nat) := gram_sp_code_path 0%Z Z.add Z.mul Sp n.
 Definition sp_tnt_recorded_ok (Sp : sparse Z) (n : nat) (shp rows cols : list nat) (data : list Z) : bool :=
-  match sp_nvecs_tnt 0%Z Sp n with
+  match sp_nvecs_tnt Sp n with
   | Some C => nvec_eqb (coo_shape C) (rev shp) &&
               nmat_eqb (coo_subs C) (map (fun rc => [snd rc; fst rc]) (combine rows cols)) &&
               vec_eqb (coo_data C) data
   | None => false
   end.
 Definition sp_path_refused (Sp : sparse Z) (n : nat) : bool :=
-  match sp_nvecs_tnt 0%Z Sp n with None => true | Some _ => false end.
+  match sp_nvecs_tnt Sp n with None => true | Some _ => false end.
 
 (* sparse-core branch with the H the code computes (C14_gram_tucker_sparse_core_code): the sptensor.ttm chain; H as RECORDED
    (core.ttm(V) is a dense tensor: shape and F-order data) against the chain model *)
@@ -83,6 +83,47 @@ Definition nvecs_ok (eps : Qc) (Y W : qmatrix) (mu : list Qc) (V : qmatrix) (r :
   list_eqb (qabs_close (eps * sc)) lam (firstn r mu) &&
   (if flip then forallb (fun j => sign_ok eps (qcol V j)) (seq 0 r) else true).
 
+(* wave 4 — facets of the property that sptensor.nvecs keeps in spite of finding A-38 (checked UNATTRIBUTED outside the exact trigger
+   classes of A-38, see tools/props/c14.py):
+   cols_ok: n x r matrix, orthonormal columns, sign rule;
+   eigset_ok: every column is an eigenvector of Y and the Rayleigh quotients, sorted, are the r largest eigenvalues of the certificate
+   (the iterative path returns the r dominant eigenpairs, possibly out of order) *)
+Definition cols_ok (eps : Qc) (V : qmatrix) (n r : nat) (flip : bool) : bool :=
+  Nat.eqb (length V) n && forallb (fun row => Nat.eqb (length row) r) V && orthob eps V n r &&
+  (if flip then forallb (fun j => sign_ok eps (qcol V j)) (seq 0 r) else true).
+Fixpoint qins (x : Qc) (l : list Qc) : list Qc :=
+  match l with [] => [x] | y :: t => if qleb y x then x :: l else y :: qins x t end.
+Definition qsort_desc (l : list Qc) : list Qc := fold_right qins [] l.
+Definition eigset_ok (eps : Qc) (Y W : qmatrix) (mu : list Qc) (V : qmatrix) (r : nat) : bool :=
+  let n := length Y in
+  let sc := qmax q1 (qtrace Y) in
+  eig_cert eps Y W mu && Nat.eqb (length V) n && forallb (fun row => Nat.eqb (length row) r) V && Nat.leb r n &&
+  let YV := mmul q0 Qcplus Qcmult Y V n r in
+  let lam := map (fun j => qdot (qcol V j) (qcol YV j)) (seq 0 r) in
+  qmat_close (eps * sc) YV (map (fun row => map (fun p => fst p * snd p) (combine row lam)) V) &&
+  list_eqb (qabs_close (eps * sc)) (qsort_desc lam) (firstn r mu).
+(* wave 4 — large modes (iterative path at sizes where ARPACK really iterates): certificate WITHOUT a full decomposition.  Y is the Gram
+   matrix of the denotation, symmetric positive semi-definite: the eigenvalues not captured by the r orthonormal eigenvectors V are
+   >= 0 and sum to trace Y - sum lam, so each of them is <= that remainder; when the remainder is <= the smallest Rayleigh quotient the
+   columns belong to the r LARGEST eigenvalues (the generator builds spectra whose tail is that small).  inorder = false: any order
+   (sparse path, finding A-38) *)
+Fixpoint qnonincr (tol : Qc) (l : list Qc) : bool :=
+  match l with x :: ((y :: _) as t) => qleb y (x + tol) && qnonincr tol t | _ => true end.
+Definition nvecs_trace_ok (eps : Qc) (Y V : qmatrix) (r : nat) (flip inorder : bool) : bool :=
+  let n := length Y in
+  let sc := qmax q1 (qtrace Y) in
+  Nat.eqb (length V) n && forallb (fun row => Nat.eqb (length row) r) V && Nat.leb 1 r && Nat.leb r n && orthob eps V n r &&
+  let YV := mmul q0 Qcplus Qcmult Y V n r in
+  let lam := map (fun j => qdot (qcol V j) (qcol YV j)) (seq 0 r) in
+  let lam' := if inorder then lam else qsort_desc lam in
+  qmat_close (eps * sc) YV (map (fun row => map (fun p => fst p * snd p) (combine row lam)) V) &&
+  qnonincr (eps * sc) lam' &&
+  qleb (qtrace Y - sum_over q0 Qcplus lam (fun x => x)) (last lam' q0 + eps * sc) &&
+  (if flip then forallb (fun j => sign_ok eps (qcol V j)) (seq 0 r) else true).
+
+(* the result has the requested shape / max |imaginary part| as recorded is zero *)
+Definition shape_is (vshape : list nat) (n r : nat) : bool := nvec_eqb vshape [n; r].
+
 (* projector V V^T *)
 Definition qproj (V : qmatrix) : qmatrix := map (fun ra => map (fun rb => qdot ra rb) V) V.
 Definition same_subspace (eps : Qc) (V1 V2 : qmatrix) : bool := qmat_close eps (qproj V1) (qproj V2).
@@ -92,6 +133,20 @@ Fixpoint all_same_subspace (eps : Qc) (Vs : list qmatrix) : bool :=
 (* list-level post-processing model on the recorded solver output *)
 Definition qpost := postprocess q0 qabs Qcopp qltb.
 Definition qcols_eqb (A B : list (list Qc)) : bool := list_eqb (list_eqb Qc_eq_bool) A B.
+(* wave 4 — sptensor.nvecs' own post-processing (Model/C14SpPost.v; finding A-38) on the recorded solver output: the code-path tie of the
+   sparse representation (theorems C14_sparse_post_dense_sorted / _iter_sorted say where it coincides with qpost) *)
+Definition qsp_post_dense := sp_post_dense q0 qabs Qcopp qltb.
+Definition qsp_post_iter := sp_post_iter q0 qabs Qcopp qltb.
+(* exactly equal |w| (numpy's default argsort is not stable, the order among ties is unspecified): the k-th returned column is the
+   (flipped) recorded column of SOME index whose |w| is the k-th largest *)
+Definition qpost_tie_ok (w : list Qc) (cols : list (list Qc)) (r : nat) (flip : bool) (got : list (list Qc)) : bool :=
+  let sa := map (fun k => qabs (nth k w q0)) (argsort_desc_abs qabs qltb w) in
+  Nat.eqb (length got) (Nat.min r (length w)) &&
+  forallb (fun k => existsb (fun i => Qc_eq_bool (qabs (nth i w q0)) (nth k sa q0) &&
+                                      list_eqb Qc_eq_bool (nth k got [])
+                                               (let c := nth i cols [] in if flip then flip_col q0 qabs Qcopp qltb c else c))
+                            (seq 0 (length w)))
+          (seq 0 (length got)).
 Definition eps6 : Qc := Q2Qc (1 # 1000000).
 
 (* recorded solver input close to the Gram matrix of the denotation (inputs whose products are rounded: factors on the 2^-30 grid,
